@@ -27,6 +27,8 @@ Functions useful from a scratch script (after `import bootstrap; bootstrap.insta
   run_real_only(n, seed, profile)      -> summary dict (no Lean at all)
   gen_order_program(rng)               -> typed multi-function source for the order-edge phase (C05)
   order_eval(source)                   -> per track_hugr_side_effects context: recorded links, oracle failures, model request
+  tie_hugr_exec(ctx, pid)              -> end-to-end phase (c03_hugr.py): lowered HUGR interpreted vs CPython on the same source;
+                                          scratch: /venv/bin/python harness/props/c03_hugr.py --n 500 --seed 1 [--pid C05]
 """
 from __future__ import annotations
 
@@ -48,7 +50,9 @@ RULE = (
     "structured programs over int parameters x,y,z and int/bool locals: nested if/elif/else, while (counter loops, "
     "`while True` + break, external-call conditions, constant conditions), for over range, break/continue, early and "
     "bare returns, statements after return/break/continue (unreachable code), constant conditions, expression "
-    "statements, augmented assignments; expressions with external calls (0-2 args), conditional expressions, and/or "
+    "statements, augmented assignments; expressions with external calls (0-2 args; besides f,g,h,k / c,p,q also externals NAMED "
+    "like builtins: abs, round, int, len, bool, float, divmod, nat, pow -- a builder that treats such calls specially by name reorders "
+    "them in the call trace), conditional expressions, and/or "
     "(2-3 operands), not, chained comparisons, walrus, negative literals. ~20% of the programs are deliberately shaped like "
     "the former defect D9 (repaired by /repo commits f9e33c1, 7c8aeda): a lifted sub-expression (conditional expression, "
     "and/or, walrus, chained comparison) right of a side-effecting or re-assigned sibling in binary operators, comparisons, "
@@ -62,10 +66,16 @@ RULE = (
     "call; distinct by (source, rn, arguments). End-to-end phase (tie_hugr_exec, c03_hugr.py): typed multi-function programs "
     "(reporting helpers; int / bool / float / struct / tuple / array parameters; struct and tuple values whose different leaves stay "
     "alive on different branches, tuple unpacking and swaps, array unpacking with a starred target in any position, `for v in xs`, "
-    "subscript reads / writes, the f9e33c1 / 7c8aeda / 9df9073 expression shapes; corpus/c03/hugr_exec.json first) are checked and "
+    "subscript reads / writes, the f9e33c1 / 7c8aeda / 9df9073 expression shapes; operands whose evaluation is observable without "
+    "being a plain user call, left of / inside lifted operands, as chain middles, call arguments, augmented right-hand sides and "
+    "subscript indices: (a) operands that can panic (int(x) on inf / nan / 1e30, nat(k) with k < 0, // and % by zero, out-of-range "
+    "subscripts), (b) reporting user functions named round / abs / len / pow / divmod, (c) reads of arrays, nested arrays and "
+    "array-holding structs that a later borrowing call mutates (`xs[0] + (poke(xs) if c else 0)`, `xs[ys[0]] += poke(ys)`); "
+    "corpus/c03/hugr_exec.json first) are checked and "
     "lowered by the real compiler, the lowered HUGR is interpreted under two schedules per dataflow region and compared with CPython "
-    "running the same source; case = (function, argument tuple, schedule), non-trivial = executed, has a branch or loop and reports "
-    "at least one result"
+    "running the same source (a CPython ZeroDivisionError / IndexError / OverflowError / ValueError / negative nat is the expected "
+    "PANIC: the HUGR run must panic after exactly the same results); case = (function, argument tuple, schedule), non-trivial = "
+    "executed, has a branch or loop and reports at least one result"
 )
 ASSUMPTIONS = [
     "the real CFG is given meaning by exec'ing the real block statements (ast nodes as left by the builder) in CPython and "
@@ -75,7 +85,10 @@ ASSUMPTIONS = [
     "end-to-end phase: the meaning of a lowered HUGR is given by the interpreter of c03_hugr.py (CFG / DataflowBlock / Conditional / "
     "TailLoop / Call / sums and tuples / 64-bit int, float and tket.bool arithmetic / borrow_array / tket.result), any topological "
     "order of value and order edges being a legal execution of a dataflow region (two are tried); CPython runs in which an arithmetic "
-    "result leaves +-2^62, which raise or exceed the step budget are skipped",
+    "result leaves +-2^62 or which exceed the step budget are skipped; panics are compared by the results reported before them, not by "
+    "message; an op that panics internally (idiv / imod by zero, is_to_u, borrow out of range) carries no order edge, so under the "
+    "adversarial schedule its panic may come before earlier or after later results of the same region: that difference is counted "
+    "(`panic_overtakes`), not reported, while the first-ready schedule must agree exactly (notes/INTERP.md)",
     "external functions f,g,h,k (int) and c,p,q (bool) are deterministic functions of (name, arguments, number of calls so far); "
     "they record every call, so both value flow and call order are observable",
     "integers are unbounded on all sides (the 64-bit reduction of the statement is a property of the arithmetic lowering, C13/C16)",
@@ -105,7 +118,8 @@ MANIFEST = {
     "commits f9e33c1 and 7c8aeda and the model follows the repaired builder) the built CFG, executed block by block (successor 1 on a true predicate), halts in the exit block with the same return value, "
     "the same trace of external calls and the same user-variable values as Python's big-step semantics of the source "
     "(by induction on the big-step derivation; termination-insensitive); every block has at most two "
-    "successors and two only with a branch predicate; break/continue target the innermost loop; after pruning no real edge leads "
+    "successors and two only with a branch predicate; every non-entry block has a predecessor over a real or dummy edge "
+    "(nonentry_block_has_pred); break/continue target the innermost loop; after pruning no real edge leads "
     "from unreachable into reachable code and dummy edges only reach unreachable blocks; the reachable flags are exactly graph "
     "reachability from the entry; block wiring of compiler/cfg_compiler.py (compile_bb / sort_vars / choose_vars_for_tuple_sum / "
     "insert_return_vars): along every edge the ordered places a block delivers equal the ordered places the successor binds "
@@ -129,8 +143,15 @@ MANIFEST = {
 
 PARAMS = ("x", "y", "z")
 FNAME = "main"  # `f` is an external function
-INT_EXT = "fghk"
-BOOL_EXT = "cpq"
+# external functions of the untyped CFG-level programs.  A name whose first letter is c, p or q is bool-valued (the Lean
+# driver's protoEnv decides by the first character), every other name is int-valued.  Besides f,g,h,k / c,p,q there are
+# externals NAMED like Python builtins: a builder that treats calls of `int`, `len`, `abs`, ... specially BY NAME (e.g. as
+# pure, seed C05/m3) reorders them against other calls, which shows in the call trace.  They are ordinary instrumented
+# externals here (defined in the exec environment on the CPython side and in the real-CFG interpreter).
+BUILTIN_LIKE_INT = ("abs", "round", "int", "len", "bool", "float", "divmod", "nat")
+BUILTIN_LIKE_BOOL = ("pow",)
+INT_EXT = ("f", "g", "h", "k") * 3 + BUILTIN_LIKE_INT
+BOOL_EXT = ("c", "p", "q") * 4 + BUILTIN_LIKE_BOOL
 PY_TICKS = 120
 MODEL_FUEL = 3000  # cap; per run: 200 + the step budget given to the real-CFG interpreter
 
@@ -421,7 +442,7 @@ def fmt_trace(tr) -> str:
 
 def ext_result(name: str, args, k: int):
     r = 17 * k + 31 * sum(int(a) for a in args) + 7 * ord(name[0])
-    if name[0] in BOOL_EXT:
+    if name[0] in "cpq":
         return r % 3 == 0
     return (r % 11) - 5
 
@@ -436,7 +457,7 @@ def make_externals(trace: list) -> dict:
         ext.__name__ = name
         return ext
 
-    return {n: mk(n) for n in INT_EXT + BOOL_EXT}
+    return {n: mk(n) for n in sorted(set(INT_EXT + BOOL_EXT))}
 
 
 class _Timeout(Exception):
